@@ -34,6 +34,7 @@ func NewVerifConn(rh Handler, clientID string) *VerifConn {
 	h := &handler{Handler: rh}
 	h.disconnectChan = make(chan error, 8)
 	h.sendChan = make(chan hwebsocket.Msg, sendChanSize)
+	h.frameChan = make(chan struct{}, 1)
 	scheduler := hwebsocket.NewScheduler()
 	h.dispatcher = scheduler
 	h.consumer = scheduler
@@ -64,6 +65,18 @@ func (v *VerifConn) HandleNext() (msg hwebsocket.Msg, ok bool, err error, panick
 	}()
 	err = v.h.handleMessage(v.ctx, msg, v.resp)
 	return msg, true, err, ""
+}
+
+// PumpFrame is one iteration of startHandlingFrames: when the session has signalled a frame, the updates the scheduler
+// holds are put on its queue.  It reports whether there was a signal.
+func (v *VerifConn) PumpFrame() bool {
+	select {
+	case <-v.h.frameChan:
+		v.h.dispatcher.HandleFrame()
+		return true
+	default:
+		return false
+	}
 }
 
 // Disconnect is handleDisconnect without closing the (absent) network connection.
